@@ -333,6 +333,13 @@ def run(ctx):
     cg = res.clause('C13.g', 'R-PROV', 'recycle rate, timeout and process mode are stored as the caller gave them', floor=3)
     common.ctor_params_clause(ctx, res, cg, 'C13', 'C13.g', 'CompareExecutionConfig')
     common.ctor_calls_agree_clause(ctx, res, cg, 'C13', 'C13.g', 'CompareExecutionConfig')
+    # ---- C13.h the shutdown of a run lives in the finalisation of its generator: whoever starts runs for the caller hands the generators over
+    # and keeps no reference (a kept reference postpones the finalisation - and the worker's shutdown - for as long as that object lives)
+    from . import common as _cm13
+    st13 = repo.cls('PlaybackStudio')
+    ch13 = res.clause('C13.h', 'R-PROV', 'the studio keeps no reference to the comparison generators it returns', floor=1)
+    _cm13.stateless_methods_clause(res, ch13, 'C13', 'C13.h', st13, ['play'],
+                                   'an abandoned run is shut down when its generator is finalised, which needs the caller to hold the only reference')
     return res
 
 
